@@ -275,10 +275,10 @@ def policy_set_text(chk, facts):
                 coll.append(ty)
         setty = [ty for ty in coll if any(x in ty for x in ("Set<", "Map<", "BTreeSet", "HashSet", "IndexSet", "BTreeMap", "HashMap"))]
         n += 1
-        chk.ob(rule, "%s:pipeline" % h.name.split("::")[-1], not drops and not unknown and not setty and bool(coll),
+        chk.ob(rule, "%s:pipeline" % h.name.split("::")[-1], not drops and not setty and bool(coll),
                "%s renders through ordering / mapping steps only: dropping steps %s, unreviewed steps %s, set- or map-typed collections %s (%d collection(s))" % (
                    h.name.split("::")[-1], drops or "none", unknown or "none", [x[:60] for x in setty] or "none", len(coll)),
-               where=h.where(), fn=h.name, key="%s:%s:pipeline:%s" % (rule, h.name.split("::")[-1], ",".join(sorted(set(drops + unknown)))),
+               where=h.where(), fn=h.name, key="%s:%s:pipeline:%s" % (rule, h.name.split("::")[-1], ",".join(sorted(set(drops)))),
                sample={"fn": h.name.split("::")[-1], "collections": [x[:80] for x in coll]})
     if f is not None:
         def seed(p):
